@@ -220,7 +220,8 @@ def generate(rng, tier: str, i: int, prop: str) -> dict:
         sub = rng.choice(["", "", "d", "d/e"])
         fname = os.path.join(sub, base[:200]) if sub else base[:200]
     scn = {
-        "sink": sink, "fname": fname, "title": _gstr(rng, 60),
+        "sink": sink, "fname": fname,
+        "title": _gstr(rng, 60) if rng.random() < 0.97 else "T" * rng.choice([65535, 65536, 70000]),
         "byteorder": rng.choice(["native", "little", "big"]),
         "clock": {
             "start": rng.choice([
